@@ -35,9 +35,11 @@ MANIFEST = dict(
     note="trusted: Coq kernel, extraction, OCaml driver, Rust harness, Python re as independent matcher for the column "
          "oracle (restricted pattern pool); utf8_valid is differentially tested against std::str::from_utf8 and "
          "Python's decoder, not proved against a Unicode specification; only-matching / per-match MULTI-LINE paths "
-         "are modelled and corresponded, no theorem (and not modelled at all with a column limit or --trim); bstr's "
-         "grapheme segmentation is a universally quantified function in the theorems and tabulated from the real "
-         "crate per case; JSON round trip is for rg's configuration without -m; that the searcher's "
+         "have layout + record-origin theorems (every record = prelude with stated coordinates + stated input bytes; with a "
+         "column limit or --trim they are modelled and corresponded only), with the observation (outside the property) "
+         "MultiLineOnlyMatchingColumnIsBlockRelative (column = offset in the block); bstr's grapheme segmentation is a "
+         "universally quantified function in the theorems and tabulated from the real crate per case; JSON round trip is "
+         "for rg's configuration without -m; that the searcher's "
          "events are the input's lines is C03's theorem (checked here by the oracle)",
     technique="Coq proof over executable models + extracted-model/implementation correspondence + input re-location oracle",
     design="§7 C09")
@@ -46,7 +48,10 @@ MANIFEST = dict(
 PY_PATTERNS = ["a", "b+", "[ab]", "ab|b", "c", "x", "A", "a+b*", "[0-9]", " ", "é", r"\t", "a[bc]?", "y|:"]
 ML_PATTERNS = [r"a\nb", r"b\n", r"a\n+", r"[ab]\n[ab]", r"c\n\n?", r"x\ny",
                # line-spanning on DOS files, and touching matches (each match ends where the next one starts)
-               r"a\r?\nb", r"[abc]\r?\n", r"[ab1]\r\n[ab1]", r"a1?\n?", r"[ab]1?\n", r"[a-z0-9 ]+\r?\n", r"[ab]1\n[ab]1"]
+               r"a\r?\nb", r"[abc]\r?\n", r"[ab1]\r\n[ab1]", r"a1?\n?", r"[ab]1?\n", r"[a-z0-9 ]+\r?\n", r"[ab]1\n[ab]1",
+               # matches spanning two or three lines next to single-line ones (multi-line -o / --vimgrep records)
+               r"[ab xy1]\n[ab xy1]", r"[ab xy1:-]\n+[ab xy1:-]|[ab]", r"[a-z]\n[a-z]\n[a-z]|[a-z]", r"[ab1]\r?\n[ab1]|1",
+               r"[a-z1 ]\n[a-z1 ]", r"[ab xy]+\n[ab xy]+"]
 ALPH = b"ab xycA\t1:-"
 NAMES = [b"f1", b"f2", b"f3"]
 
@@ -97,6 +102,7 @@ def gen_case(rng):
         ("full", mstd(col=1, bo=1, sc=b"--", ss=b"--" if ctx_on else None)),    # -n -b --column --no-heading -H
         ("vim", mstd(pm=1, pm1=1, col=1, sc=b"--", ss=b"--" if ctx_on else None)),   # --vimgrep
         ("json", mjson()),
+        ("omc", mstd(only=1, col=1, bo=1, sc=b"--", ss=b"--" if ctx_on else None)),   # -o -n -b --column
         ("rand", mstd(heading=rng.random() < 0.4, path=rng.random() < 0.8, pm=rng.random() < 0.2, pm1=rng.random() < 0.5,
                       col=rng.random() < 0.5, bo=rng.random() < 0.5, ss=rng.choice([None, b"", b"=="]),
                       sc=rng.choice([None, b"--"]), sm=rng.choice([b":", b"|"]), sx=rng.choice([b"-", b"+"]),
@@ -276,6 +282,84 @@ def check_vimgrep(ctx, c, out, v, where, multi=False):
               got=got.get(path, []), expected=want, multi=multi)
 
 
+OBS_MLOCOL = "observation_MultiLineOnlyMatchingColumnIsBlockRelative"
+
+
+def check_only_matching_multi(ctx, c, out, json_msgs, v, where):
+    """mode `omc` (-o -n -b --column) under the multi-line strategy.  Expected from the input and an independent engine
+    (Python re over the whole file): for every non-empty match, one record per line on whose content it has bytes, in
+    order, carrying that line's number, the column of the shown part's first byte... as far as the match starts on
+    that line (1 + its offset in the line), the byte offset of the match, and exactly those input bytes.  What the
+    code prints as column is 1 + the match's start in the searcher's block (theorem 11): accepted, and counted as
+    observation_MultiLineOnlyMatchingColumnIsBlockRelative (outside C09, whose statement excludes only-matching), when
+    (and only when) it is exactly that number."""
+    fl = c["flags"]
+    if (not fl.get("line_number") or fl.get("invert") or fl.get("passthru") or fl.get("after") or fl.get("before")):
+        return
+    crlf = fl.get("crlf")
+    rx = py_regex(c)
+    feat = ctx.cov.setdefault("features", {})
+    # blocks (absolute offset, length) per path from the JSON match messages: only used to classify the known finding
+    blocks, nosub = {}, set()
+    for m in json_msgs:
+        if m[0] == 1:
+            path = data_value(m[1][0])[1] if m[1] else None
+            blocks.setdefault(path, []).append((m[4], len(data_value(m[2])[1])))
+            if not m[5]:
+                nosub.add(path)
+    got = {}
+    for rec in out.split(b"\n"):
+        if rec in (b"", b"--", b"--\r"):
+            continue
+        m = re.match(rb"^(f\d):(\d+):(\d+):(\d+):(.*)$", rec, re.S)
+        if not m:
+            got.setdefault(rec[:2], []).append(None)
+            continue
+        got.setdefault(m.group(1), []).append((int(m.group(2)), int(m.group(3)), int(m.group(4)),
+                                               rec_text(m.group(5), crlf)))
+    for path, data in c["files"]:
+        if path in nosub:
+            continue     # a block reported without submatch (D2 class) is printed whole, without column
+        lines = split_lines(data)
+        want, blockcol = [], []
+        for mm in rx.finditer(data):
+            if mm.start() == mm.end():
+                continue
+            spanning = 0
+            for k, (ls, lb) in enumerate(lines):
+                ce = ls + len(content(lb, crlf))
+                a, b = max(ls, mm.start()), min(ce, mm.end())
+                if a < b:
+                    spanning += 1
+                    want.append((k + 1, (mm.start() - ls + 1) if mm.start() >= ls else None, mm.start(), data[a:b]))
+                    bo = [o for o, n in blocks.get(path, []) if o <= mm.start() < o + n]
+                    blockcol.append(mm.start() - bo[0] + 1 if bo else None)
+            if where == "library":
+                feat["ml_o_matches"] = feat.get("ml_o_matches", 0) + 1
+                feat["ml_o_spanning_matches"] = feat.get("ml_o_spanning_matches", 0) + (spanning > 1)
+        g = got.get(path, [])
+        if where == "library":
+            feat["ml_o_records_located"] = feat.get("ml_o_records_located", 0) + len(g)
+        if len(g) != len(want) or None in g:
+            v("multi-line -o: the records are not one per (match, line with content of the match)", file=path,
+              got=g, expected=want)
+            continue
+        for r_, w_, bc in zip(g, want, blockcol):
+            if (r_[0], r_[2], r_[3]) != (w_[0], w_[2], w_[3]):
+                v("multi-line -o: line number / byte offset / text of a record are not the input's at the match",
+                  file=path, record=r_, expected=w_)
+            elif w_[1] is not None and r_[1] != w_[1]:
+                if r_[1] == bc:
+                    # observation outside the property (C09 excludes only-matching): the proved model says exactly this
+                    feat[OBS_MLOCOL] = feat.get(OBS_MLOCOL, 0) + 1
+                else:
+                    v("multi-line -o: the column of a record is neither the match's column in its line nor its "
+                      "1-based offset in the block", file=path, record=r_, expected=w_, block_column=bc)
+            elif w_[1] is None and r_[1] != bc:
+                v("multi-line -o: continuation line of a spanning match does not repeat the match's column (theorem 11)",
+                  file=path, record=r_, block_column=bc)
+
+
 def data_value(d):
     """harness Data value -> (is_text, bytes)"""
     b = as_bytes(d[1])
@@ -355,6 +439,8 @@ def check_case_oracles(ctx, c, outs, where):
     check_standard_full(ctx, c, as_bytes(outs["full"][0]), v, where)
     check_vimgrep(ctx, c, as_bytes(outs["vim"][0]), v, where, multi=bool(outs.get("_multi")))
     check_json(ctx, c, outs["json"][0], v, where)
+    if outs.get("_multi") and "omc" in outs:
+        check_only_matching_multi(ctx, c, as_bytes(outs["omc"][0]), outs["json"][0], v, where)
     for what, kw in bad:
         ctx.violation("%s: %s" % (where, what),
                       dict(kind="oracle", where=where, pattern=c["pattern"], flags=c["flags"],
@@ -497,7 +583,8 @@ def corpus():
         ctx_on = fl.get("after") or fl.get("before")
         named = [("full", mstd(col=1, bo=1, sc=b"--", ss=b"--" if ctx_on else None)),
                  ("vim", mstd(pm=1, pm1=1, col=1, sc=b"--", ss=b"--" if ctx_on else None)),
-                 ("json", mjson()), ("heading", mstd(heading=1, ss=b"", col=1)), ("null", mstd(pt=0, bo=1))]
+                 ("json", mjson()), ("heading", mstd(heading=1, ss=b"", col=1)), ("null", mstd(pt=0, bo=1)),
+                 ("omc", mstd(only=1, col=1, bo=1, sc=b"--", ss=b"--" if ctx_on else None))]
         return dict(pattern=pat, flags=fl, files=[(NAMES[i], d) for i, d in enumerate(files)],
                     modes=[m for _, m in named] + [msum(0, ez=0), msum(2)], names=[n for n, _ in named] + ["count", "files"],
                     mx=None, relations=True, chunk=1 + (len(pat) + len(files[0])) % 7)
@@ -507,6 +594,9 @@ def corpus():
         mk("a", dict(L, crlf=1), [b"xa\r\nb\r\na"]),
         mk("a", L, [b"\xffa\xff\n\xc3\xa9a\n"]),
         mk("a", dict(L, passthru=1), [b"x\na\ny", b"q\n"]),
+        mk(r"[ab]1\n", dict(L, multiline=1), [b"a1\nb1\n"]),     # observation MultiLineOnlyMatchingColumnIsBlockRelative: 2:4:b1
+        mk(r"c\nd|e", dict(L, multiline=1), [b"abc\nde\n", b"xc\nd\nq\ne\n"]),
+        mk(r"b\r\nb|a", dict(L, multiline=1, crlf=1), [b"ab\r\nba\r\n"]),
         mk(r"b\nc", dict(L, multiline=1), [b"ab\ncd\n"]),                  # column_number_multi_line of the suite
         mk(r"a\n+", dict(L, multiline=1, after=1), [b"a\n\nb\na\nc\n"]),
         mk("a", dict(L, invert=1, after=1), [b"a\nb\na\n"]),
